@@ -972,6 +972,43 @@ def rule_r11(prog, res):
     res.floor('R11', 'registrations of variants with their original', n, 1)
 
 
+def rule_r12(prog, res):
+    from . import c12
+    from ..report import Result
+    res.share('R12', 'the memoizer behind get_flat_type_info keeps what it '
+              'caches in self.memo, the dict append_field/insert_field/'
+              'customize clear (C12-R10)', 'C12', c12.rule_r10, prog, Result)
+    res.rule('R12', 'Mandatory() decides about the items of an array from '
+             'the item type\'s own occurrence bound')
+    m = prog.module('spyne.model.complex')
+    f = m.functions.get('Mandatory')
+    if f is None:
+        raise AnalysisError('Mandatory', 'not found')
+    n = 0
+    for a in walk_no_defs(f.node):
+        if not (isinstance(a, ast.Assign) and isinstance(
+                a.targets[0], ast.Subscript) and '_type_info' in unparse(
+                    a.targets[0].value) and isinstance(a.value, ast.Call) and
+                call_name(a.value) == 'Mandatory' and a.value.args):
+            continue
+        n += 1
+        item = unparse(a.value.args[0])
+        atoms = guardspec.atoms_at(a, f.node)
+        occ = [t for t, pol in atoms if 'min_occurs' in t]
+        ok = bool(occ) and all(t.startswith(item + '.') for t in occ)
+        where = '%s:%d' % (m.relpath, a.lineno)
+        res.ob('R12', where, 'Mandatory() re-derives the item type %s under '
+               '%s' % (item, occ), 'ok' if ok else 'VIOLATED')
+        if not ok:
+            res.finding('R12', 'Mandatory|item-bound-read-from-wrapper',
+                        where, 'the item type %s is made mandatory under %s, '
+                        'which is not its own bound: Mandatory(Array(T, '
+                        'min_occurs=1)) leaves the items optional, and '
+                        'Array(T.customize(min_occurs=2)) gets its items '
+                        're-derived with min_occurs=1' % (item, occ))
+    res.floor('R12', 'item re-derivations in Mandatory', n, 1)
+
+
 def run(prog, res, tier):
     res.run_rule(rule_r1, prog, res)
     res.run_rule(rule_r2, prog, res)
@@ -984,12 +1021,17 @@ def run(prog, res, tier):
     res.run_rule(rule_r9, prog, res)
     res.run_rule(rule_r10, prog, res)
     res.run_rule(rule_r11, prog, res)
+    res.run_rule(rule_r12, prog, res)
 
 
 _C = 'spyne/model/complex.py'
 _B = 'spyne/model/_base.py'
 
 MUTANTS = [
+    Mutant('mandatory-reads-wrapper-bound', 'R12', 'fire', _C,
+           in_func('Mandatory', "if v.Attributes.min_occurs == 0:",
+                   "if cls.Attributes.min_occurs == 0:"),
+           'item-bound-read-from-wrapper'),
     Mutant('variants-of-variants-unregistered', 'R11', 'fire', _C,
            in_func('ComplexModelBase._process_variants',
                    "        if orig is not None:\n",
